@@ -25,6 +25,7 @@ resid, input resids < 1 or not increasing along a chain (see SIGNATURES / VERIF_
 import logging
 import math
 import multiprocessing as mp
+import numbers
 import os
 import random
 
@@ -38,7 +39,7 @@ BB_TYPES = ['P2', 'SP2', 'P5', 'SQ5n', 'TP1', 'SP1', 'P6']
 SC_TYPES = ['C3', 'SC4', 'TC5', 'P1', 'SQ4p', 'TN6d']
 RESNAMES = ['ALA', 'GLY', 'LYS', 'CYS', 'TRP']
 
-TAB_CFG = ("SPECIFICATION Spec\nINVARIANT OpIsDecl\nINVARIANT OrderFree\nINVARIANT BallIsWalk\nINVARIANT OnlySymmetric\n"
+TAB_CFG = ("SPECIFICATION Spec\nINVARIANT OpIsDecl\nINVARIANT FastIsDecl\nINVARIANT OrderFree\nINVARIANT BallIsWalk\nINVARIANT OnlySymmetric\n"
            "INVARIANT MonoContacts\nINVARIANT MonoSeparation\n")
 TAB_CONSTS = {
     'quick': {'NR': '4', 'Spacing': '500', 'Seps': '{0, 1}', 'Windows': '{<<400, 1600>>, <<500, 1500>>}', 'XLinks': '{FALSE}'},
@@ -70,13 +71,25 @@ def _num(x, scale):
     return r if abs(v - r) <= 1e-6 else -99998
 
 
-def project_atoms(mol):
+def project_atoms(mol, scale=1000, exact=True):
+    """exact: coordinates must be integers after scaling (generated inputs); otherwise they are rounded (real structures: the
+    judge then works with a tolerance band)."""
+    def coord(x):
+        if exact:
+            return _num(x, scale)
+        try:
+            v = float(x) * scale
+        except (TypeError, ValueError):
+            return -99999
+        return int(round(v)) if math.isfinite(v) and abs(v) < 2e9 else -99999
     out = []
     for key, d in mol.nodes(data=True):
         pos = d.get('position')
-        out.append({'key': key, 'chain': d.get('chain', '-'), 'resid': d.get('resid', -99999), 'old': d.get('_old_resid', -99999),
-                    'resname': d.get('resname', '-'), 'name': d.get('atomname', '-'), 'atype': d.get('atype', '-'),
-                    'pos': [_num(x, 1000) for x in pos] if pos is not None else [-99999] * 3,
+        resid, old = d.get('resid'), d.get('_old_resid')
+        out.append({'key': key, 'chain': str(d.get('chain', '-')), 'resid': int(resid) if isinstance(resid, numbers.Integral) else -99999,
+                    'old': int(old) if isinstance(old, numbers.Integral) else -99999,
+                    'resname': str(d.get('resname', '-')), 'name': str(d.get('atomname', '-')), 'atype': str(d.get('atype', '-')),
+                    'pos': [coord(x) for x in pos] if pos is not None else [-99999] * 3,
                     'mass': _num(d.get('mass', -99.999), 1000), 'charge': _num(d.get('charge', -99.999), 1000)})
     return out
 
@@ -121,6 +134,43 @@ def build_system(sc):
     return system
 
 
+def snapshot_before(mol_, scale=1000, exact=True):
+    """The merged molecule as it enters site creation."""
+    index = {k: i + 1 for i, k in enumerate(mol_.nodes)}
+    return {'atoms': project_atoms(mol_, scale, exact), 'edges': [[index[a], index[b]] for a, b in mol_.edges],
+            'inter': _inter_snapshot(mol_), 'keys': set(mol_.nodes)}
+
+
+def snapshot_after(system, snap, scale=1000, exact=True):
+    """The system after GoPipeline.run_system, as the `post` record of spec/Trace_GoModel.tla."""
+    post = {'exc': 'atoms' not in snap or len(system.molecules) != 1, 'atoms': [], 'vs': [], 'excl': [],
+            'others': True, 'decl': [], 'nb': []}
+    if post['exc']:
+        return post
+    mol = system.molecules[0]
+    index = {k: i + 1 for i, k in enumerate(mol.nodes)}
+    post['atoms'] = project_atoms(mol, scale, exact)
+    new_nodes = set(mol.nodes) - snap['keys']
+    for it in mol.interactions.get('virtual_sitesn', []):
+        if it.atoms and it.atoms[0] in new_nodes:
+            post['vs'].append({'site': index[it.atoms[0]], 'from': [index.get(a, 0) for a in it.atoms[1:]],
+                               'one': [str(p) for p in it.parameters] == ['1']})
+    for it in mol.interactions.get('exclusions', []):
+        if it.meta.get('group') == 'Go model exclusion':
+            post['excl'].append({'a': index.get(it.atoms[0], 0), 'b': index.get(it.atoms[1], 0)})
+    post['others'] = _inter_snapshot(mol, new_nodes) == snap['inter']
+    for at in system.gmx_topology_params.get('atomtypes', []):
+        post['decl'].append({'node': index.get(at.node, 0) if at.molecule is mol else 0,
+                             'sigma': _num(at.sigma, 1000), 'eps': _num(at.epsilon, 1000)})
+    for nb in system.gmx_topology_params.get('nonbond_params', []):
+        atoms = [str(a) for a in nb.atoms]
+        s = float(nb.sigma) * 2 ** (1 / 6) * scale
+        ok = math.isfinite(s) and s < 40000
+        post['nb'].append({'ta': atoms[0], 'tb': atoms[-1], 's2': round(s * s) if ok else -1, 's': round(s) if ok else -1,
+                           'eps': _num(nb.epsilon, 1000)})
+    return post
+
+
 def run_real(sc):
     """Run the real pipeline; return the TLC event (g, post) and the raw exception text."""
     from vermouth.rcsu.go_pipeline import GoPipeline
@@ -130,12 +180,7 @@ def run_real(sc):
 
     def prepare_and_snapshot(system_, moltype):
         original(system_, moltype=moltype)
-        mol_ = system_.molecules[0]
-        index = {k: i + 1 for i, k in enumerate(mol_.nodes)}
-        snap['atoms'] = project_atoms(mol_)
-        snap['edges'] = [[index[a], index[b]] for a, b in mol_.edges]
-        snap['inter'] = _inter_snapshot(mol_)
-        snap['keys'] = set(mol_.nodes)
+        snap.update(snapshot_before(system_.molecules[0]))
 
     GoPipeline.prepare_run = prepare_and_snapshot
     exc = ''
@@ -153,30 +198,11 @@ def run_real(sc):
     g = {'atoms': snap.get('atoms', []), 'edges': snap.get('edges', []),
          'cmap': [{'ra': c[0], 'ca': c[1], 'rb': c[2], 'cb': c[3]} for c in sc['cmap']],
          'name': sc['name'], 'bb': sc['bb'], 'vs': sc['vs'], 'lo': sc['lo'], 'up': sc['up'], 'sep': sc['sep'], 'eps': sc['eps']}
-    post = {'exc': bool(exc) or 'atoms' not in snap or len(system.molecules) != 1, 'atoms': [], 'vs': [], 'excl': [],
-            'others': True, 'decl': [], 'nb': []}
-    if not post['exc']:
-        mol = system.molecules[0]
-        index = {k: i + 1 for i, k in enumerate(mol.nodes)}
-        post['atoms'] = project_atoms(mol)
-        new_nodes = set(mol.nodes) - snap['keys']
-        for it in mol.interactions.get('virtual_sitesn', []):
-            if it.atoms and it.atoms[0] in new_nodes:
-                post['vs'].append({'site': index[it.atoms[0]], 'from': [index.get(a, 0) for a in it.atoms[1:]],
-                                   'one': [str(p) for p in it.parameters] == ['1']})
-        for it in mol.interactions.get('exclusions', []):
-            if it.meta.get('group') == 'Go model exclusion':
-                post['excl'].append({'a': index.get(it.atoms[0], 0), 'b': index.get(it.atoms[1], 0)})
-        post['others'] = _inter_snapshot(mol, new_nodes) == snap['inter']
-        for at in system.gmx_topology_params.get('atomtypes', []):
-            post['decl'].append({'node': index.get(at.node, 0) if at.molecule is mol else 0,
-                                 'sigma': _num(at.sigma, 1000), 'eps': _num(at.epsilon, 1000)})
-        for nb in system.gmx_topology_params.get('nonbond_params', []):
-            atoms = [str(a) for a in nb.atoms]
-            s = float(nb.sigma) * 2 ** (1 / 6) * 1000.0
-            post['nb'].append({'ta': atoms[0], 'tb': atoms[-1], 's2': round(s * s) if math.isfinite(s) and s < 40000 else -1,
-                               'eps': _num(nb.epsilon, 1000)})
-    return {'fam': sc['fam'], 'g': g, 'post': post}, exc
+    if exc:
+        post = {'exc': True, 'atoms': [], 'vs': [], 'excl': [], 'others': True, 'decl': [], 'nb': []}
+    else:
+        post = snapshot_after(system, snap)
+    return {'kind': 'mem', 'fam': sc['fam'], 'tol': 0, 'g': g, 'post': post}, exc
 
 
 # --------------------------------------------------------------------------------------------------- generator
